@@ -69,3 +69,20 @@ Definition agree (c : case) : bool := touts_eqb (model_outs (fst c)) (snd c).
 Definition prop_ok (c : case) : bool :=
   let i := fst c in
   tspec false (i_q i) (i_bcap i) [] [] 0 (map (fun c => {| cond := c; marker := None |}) (i_conds i)) 0 (i_ops i) (snd c).
+
+(* ---- decisions racing with arrivals (two threads): the counting law ----
+   events of one run in global order: a sample is handed to the collector; a decision ends, having run or not.
+   Every arrival supports at most one run:  min_new * runs <= arrivals so far, at every run. *)
+Inductive aev := ACollect | ARun (ran : bool).
+
+Fixpoint count_ok (mn collected runs : nat) (evs : list aev) : bool :=
+  match evs with
+  | [] => true
+  | ACollect :: r => count_ok mn (S collected) runs r
+  | ARun true :: r => (mn * S runs <=? collected) && count_ok mn collected (S runs) r
+  | ARun false :: r => count_ok mn collected runs r
+  end.
+
+Inductive case2 := CSeq (c : case) | CLine (mn : nat) (evs : list aev).
+Definition agree2 (c : case2) : bool := match c with CSeq c => agree c | CLine _ _ => true end.
+Definition prop_ok2 (c : case2) : bool := match c with CSeq c => prop_ok c | CLine mn evs => count_ok mn 0 0 evs end.
